@@ -19,7 +19,7 @@ def meta(tier):
                             standards=["f2003", "f2008"], ignore_comments=[True, False]),
                 assumptions=["the outcome does not depend on leaf values: the solver certifies 'for all lexemes', class coverage comes from the catalogue",
                              "symbolic leaves pickle through a same-process token table"],
-                budget_s=400 if q else 1500, unit_budget_s=60 if q else 300)
+                budget_s=400 if q else 1200, unit_budget_s=60 if q else 300)
 
 
 def _ids(t):
